@@ -42,6 +42,22 @@ type c27Case struct {
 
 func c27Addr(i int) codec.Address {
 	var a codec.Address
+	// families 1..3: addresses that differ from each other in exactly one byte
+	// (the last one, the type byte, a middle one); everything else is shared
+	if i >= 100 && i < 400 {
+		for k := range a {
+			a[k] = byte(0x5a + 7*k)
+		}
+		switch i / 100 {
+		case 1:
+			a[codec.AddressLen-1] = byte(i)
+		case 2:
+			a[0] = byte(i)
+		default:
+			a[codec.AddressLen/2] = byte(i)
+		}
+		return a
+	}
 	a[0] = byte(i % 3)
 	binary.BigEndian.PutUint32(a[1:], uint32(i)*2654435761+7)
 	a[codec.AddressLen-1] = byte(i)
@@ -190,6 +206,19 @@ func runC27(c c27Case) (string, string, c27Stats) {
 			return "balance-not-sum", fmt.Sprintf("address %s: GetBalance=(%d,%v), sum of its allocations %s", addr, got, err, want), st
 		}
 	}
+	// an unconfigured address that differs from a configured one in a single byte has balance 0
+	for addr := range sums {
+		for _, pos := range []int{0, codec.AddressLen / 2, codec.AddressLen - 2, codec.AddressLen - 1} {
+			nb := addr
+			nb[pos] ^= 0x01
+			if _, configured := sums[nb]; configured {
+				continue
+			}
+			if got, err := bh.GetBalance(ctx, nb, db); err != nil || got != 0 {
+				return "unconfigured-address-funded", fmt.Sprintf("unconfigured address %s (configured %s with byte %d changed) has balance (%d,%v)", nb, addr, pos, got, err), st
+			}
+		}
+	}
 	// an address that was not configured has balance 0
 	if got, err := bh.GetBalance(ctx, c27Addr(1000), db); err != nil || got != 0 {
 		return "unconfigured-address-funded", fmt.Sprintf("unconfigured address has balance (%d,%v)", got, err), st
@@ -215,7 +244,7 @@ func runC27(c c27Case) (string, string, c27Stats) {
 
 func TestC27(t *testing.T) {
 	r := kit.Start(t, "C27", "exploration")
-	r.Rule("case = allocation list (0..14 entries over a pool of 1..6 addresses: duplicates, zero balances, values 1, 2^32, 2^63, 2^64-1 and random; totals just below, at and above 2^64-1) x minimum unit price vector (0, 1, 100, 2^63, 2^64-1, random) x balance prefix x metadata prefixes (default and non-default), genesis built directly or round-tripped through its JSON form and DefaultGenesisFactory.Load; the real chain.NewGenesisCommit runs on an empty merkledb and the committed database is iterated. Oracle (math/big): error iff the grand total exceeds 2^64-1 (and then the database is untouched); otherwise every key is a configured address's balance key (= the sum of its allocations) or one of the three metadata keys, height = timestamp = 8 zero bytes, unit prices = minimum prices, view root = committed root = genesis block's state root, block height 0 without parent. Non-trivial = duplicate addresses or an overflowing total; distinct = distinct case.")
+	r.Rule("case = allocation list (0..14 entries over a pool of 1..6 addresses, in a third of the cases addresses that differ from each other in exactly one byte - the last, the type byte or a middle one; every unconfigured one-byte neighbour of a configured address must read 0: duplicates, zero balances, values 1, 2^32, 2^63, 2^64-1 and random; totals just below, at and above 2^64-1) x minimum unit price vector (0, 1, 100, 2^63, 2^64-1, random) x balance prefix x metadata prefixes (default and non-default), genesis built directly or round-tripped through its JSON form and DefaultGenesisFactory.Load; the real chain.NewGenesisCommit runs on an empty merkledb and the committed database is iterated. Oracle (math/big): error iff the grand total exceeds 2^64-1 (and then the database is untouched); otherwise every key is a configured address's balance key (= the sum of its allocations) or one of the three metadata keys, height = timestamp = 8 zero bytes, unit prices = minimum prices, view root = committed root = genesis block's state root, block height 0 without parent. Non-trivial = duplicate addresses or an overflowing total; distinct = distinct case.")
 	r.Assume("the fee-manager state is decoded with internal/fees.Manager (the chain's own reader)",
 		"an address whose configured allocations sum to 0 may or may not have a balance entry",
 		"'total would overflow' is read as the sum over all allocations exceeding 2^64-1")
@@ -309,8 +338,12 @@ func TestC27(t *testing.T) {
 		pool := 1 + rng.IntN(6)
 		na := rng.IntN(15)
 		mode := rng.IntN(4)
+		family := 0
+		if rng.IntN(3) == 0 {
+			family = 100 * (1 + rng.IntN(3)) // addresses differing in one byte only
+		}
 		for j := 0; j < na; j++ {
-			a := c27Alloc{Addr: rng.IntN(pool)}
+			a := c27Alloc{Addr: family + rng.IntN(pool)}
 			switch mode {
 			case 0: // boundary soup (often overflowing)
 				a.Balance = bal()
